@@ -649,8 +649,9 @@ def lazyFields : Nat → Bytes → List (Tag × Val) × Bool
       | .error _ => ([], true)
       | .ok (f, s') => let r := lazyFields fuel s'; (f :: r.1, r.2)
 
-/-- `record/data.rs::get_raw_cigar`: the raw bytes of the first `CG` field that is an array (any
-subtype); `none` if there is none; error if a field before it fails to parse -/
+/-- `record/data.rs::get_raw_cigar`: the raw bytes of the first `CG` field that is a `B:I` array
+(CIGAR operations are packed as u32); `none` if there is none; error if a field before it fails to
+parse -/
 def getRawCigar : Nat → Bytes → Except Err (Option Bytes)
   | 0, _ => .ok none
   | fuel+1, s =>
@@ -672,7 +673,7 @@ def getRawCigar : Nat → Bytes → Except Err (Option Bytes)
                 | .ok (n, s4) =>
                   match takeN (n * t.size) s4 with
                   | .error e => .error e
-                  | .ok (buf, s5) => if (a, b) = CG then .ok (some buf) else getRawCigar fuel s5
+                  | .ok (buf, s5) => if (a, b) = CG ∧ t = .I then .ok (some buf) else getRawCigar fuel s5
           else
             match lazyVal ty s2 with
             | .error e => .error e
@@ -740,8 +741,12 @@ def lazyQual (b : Bytes) : L Bytes :=
   | .panic => .panic
 
 /-- `RecordRef::data().iter()` — AS FIXED (fix "bam-lazy-data-cg"): when `cigar()` takes the
-CIGAR from the `CG` field, that field is not part of the data view, exactly as the eager decoder
-removes it. (Before the fix — finding F28 — every field was returned.) -/
+CIGAR from a `CG` field (`overflowing_cigar().is_some()`, i.e. `get_raw_cigar` found a `CG:B:I`
+array), the view is `Data::without_cigar`, whose iterator leaves out EVERY successfully decoded
+field with tag `CG` (`Ok((Tag::CIGAR, _)) if skips_cigar => {}`) — also a `CG` field of another
+type that `get_raw_cigar` walked over before it. On input the eager decoder accepts there is at most
+one `CG` field, and this is the field the eager decoder removes. (Before the fix — finding F28 —
+every field was returned.) -/
 def lazyData (b : Bytes) : L (List (Tag × Val) × Bool) :=
   match lazyRawData b with
   | .ok d =>
